@@ -49,7 +49,8 @@ def tridonicRaw (fixed : Bool) (f : WFrame) (out : List Act) : List Step :=
 def hassebRaw (f : WFrame) (query : Bool) (out : List Act) : List Step :=
   let w : Step := { act := .write f, h := Act.irel :: out, hr := [Act.irel] }
   [ { act := .connWait, h := out }, { act := .iacq, h := out } ] ++
-  (if f.twice then [w, w] else [w]) ++ [ { act := .flush } ] ++
+  -- the repeated copy of a send-twice frame belongs to the same command: no second enable
+  (if f.twice then [w, { w with act := .write { f with dt := 0 } }] else [w]) ++ [ { act := .flush } ] ++
   (if query then [ { act := .await .answer false, h := Act.irel :: out, hr := [Act.irel] } ] else []) ++
   [ { act := .irel } ]
 
